@@ -23,7 +23,7 @@ from vlib import chars
 
 # ---------------------------------------------------------------------------------------------- record reader replay
 VALID = '''{name}
-  verif
+  verif{note}
 
 {n:3d}{b:3d}  0  0  0  0            999 V2000
 {atoms}{bonds}M  END
@@ -34,12 +34,16 @@ $$$$
 '''
 
 
-def molblock(k, damage):
-    """record number k: a chain of k+1 carbons named rec<k>; damage: None | 'counts' | 'atomline' | 'element' | 'noend' | 'bondref'"""
+NOTES = ['', ' \u00b5mol \u2192 \u00e9t\u00e9', ' \u03b1-\u03b2 \u00c5', ' \u4e2d\u6587']
+
+
+def molblock(k, damage, note=''):
+    """record number k: a chain of k+1 carbons named rec<k>; damage: None | 'counts' | 'atomline' | 'element' | 'noend' | 'bondref';
+    note: text after the program name (characters of more than one byte move every later record's byte offset away from its character offset)"""
     n = k + 1
     atoms = ''.join(f'{float(j):10.4f}{0.0:10.4f}{0.0:10.4f} {"C":<3} 0  0  0  0  0  0  0  0  0  0  0  0\n' for j in range(n))
     bonds = ''.join(f'{j:3d}{j + 1:3d}  1  0  0  0  0\n' for j in range(1, n))
-    text = VALID.format(name=f'rec{k}', n=n, b=n - 1, atoms=atoms, bonds=bonds)
+    text = VALID.format(name=f'rec{k}', n=n, b=n - 1, atoms=atoms, bonds=bonds, note=note)
     lines = text.split('\n')
     if damage == 'counts':
         lines[3] = ' xx yy  0  0  0  0            999 V2000'
@@ -97,9 +101,9 @@ def reader_behaviours(num, depth, seed, workers=8):
     return cases
 
 
-def rdf_record(k, damage, rnd):
+def rdf_record(k, damage, rnd, note=''):
     """record k of an RDF file: a molecule record or a one-molecule reaction, with the same metadata"""
-    block = molblock(k, damage).split('>  <ID>')[0].rstrip('\n') + '\n'
+    block = molblock(k, damage, note).split('>  <ID>')[0].rstrip('\n') + '\n'
     if rnd.random() < .5:
         return f'$MFMT\n{block}$DTYPE ID\n$DATUM rec{k}\n'
     return f'$RFMT\n$RXN\nrec{k}\n\n\n  1  0\n$MOL\n{block}$DTYPE ID\n$DATUM rec{k}\n'
@@ -111,14 +115,15 @@ def replay_reader(case):
     d = tempfile.mkdtemp(prefix='verif-rr-')
     fmt = case.get('fmt', 'sdf')
     path = os.path.join(d, 'f.' + fmt)
-    with open(path, 'w') as f:
+    with open(path, 'w', encoding='utf-8') as f:
         if fmt == 'rdf':
             f.write('$RDFILE 1\n$DATM    01/01/26 00:00\n')
         for k, r in enumerate(case['file'], 1):
             dmg = None
             if not r['ok']:
                 dmg = 'noend' if not r['mend'] else rnd.choice(['counts', 'atomline', 'element', 'bondref'])
-            f.write(molblock(k, dmg) if fmt == 'sdf' else rdf_record(k, dmg, rnd))
+            note = NOTES[(case['rs'] + k) % len(NOTES)] if case['rs'] % 3 == 0 else ''     # a third of the files carry non-ASCII text
+            f.write(molblock(k, dmg, note) if fmt == 'sdf' else rdf_record(k, dmg, rnd, note))
     out = []
     try:
         rd = (SDFRead if fmt == 'sdf' else RDFRead)(path, indexable=True)
@@ -432,7 +437,8 @@ def run(ck):
                     step_len=lambda r: len(r['calls']))
     # round trips
     corp = [s for s in chy.corpus() if len(s) < 70]
-    special = ['[Na+].[Cl-]', '[Fe+3]', '[O-2]', '[Ti+4]', '[Si-4]', '[13CH4]', '[2H]O[2H]', 'C[CH2]', 'C[O]', 'F/C=C/F', 'F/C=C\\F', 'C[C@H](N)O', 'N[C@@H](C)C(=O)O',
+    special = ['[Zr+4].[Cl-].[Cl-].[Cl-].[Cl-]', '[Ti+4].[O-2].[O-2]', '[Si-4].[Na+].[Na+].[Na+].[Na+]', 'C[N+](C)(C)C.[Hf+4].[F-]', '[Th+4].[O-]C=O.[Fe+3]', '[C-4].[Li+].[Al+3]',
+               '[Na+].[Cl-]', '[Fe+3]', '[O-2]', '[Ti+4]', '[Si-4]', '[13CH4]', '[2H]O[2H]', 'C[CH2]', 'C[O]', 'F/C=C/F', 'F/C=C\\F', 'C[C@H](N)O', 'N[C@@H](C)C(=O)O',
                'c1ccccc1', 'c1cc[nH]c1', 'C[Fe]C', 'C/C=C/C=C\\C', 'COCCCCC(=NOCCN)c1ccc(cc1)C(F)(F)F', 'CC(C)=NO', 'CC=NO', 'C[C@]1(F)CCCO1', 'FC(Cl)=[C@]=C(Br)I', '[235U]', 'C(=O)[O-].[NH4+]', 'CC(C)(C)c1ccc(O)cc1']
     alpha = string.ascii_letters + string.digits + ' _.-+:;,()[]{}#%*/=?!@^~|'
     sel = chy.pick(corp, 60 if ck.quick else 800, ck.seed) + special
